@@ -61,7 +61,29 @@ fn field_of(letter: char) -> &'static str {
 }
 
 /// set the key field of a row to value class `class` (0 blank, 1 lo, 2 mid, 3 mid (tie), 4 same-integer, 5 hi)
+/// combos at or above this value use the fine-scale value classes 6..11 of the real-valued keys: neighbours
+/// that share a displayed tenth (10.22 / 10.28), differ in the seventh decimal, or sit on either side of an
+/// integer
+const FINE_BASE: usize = 1_000_000;
+const FINE: [f64; 6] = [10.2, 10.22, 10.28, 10.2000001, 10.97, 11.04];
+
 fn set_field(s: &mut Snap, field: &str, class: usize) {
+    if class >= 6 {
+        let v = FINE[(class - 6) % 6];
+        match field {
+            "lat" => {
+                s.lat = f64::to_bits(v);
+                s.lon = 7.5f64.to_bits();
+            }
+            "lon" => {
+                s.lon = f64::to_bits(v);
+                s.lat = 47.5f64.to_bits();
+            }
+            "dist" => s.dist = Some(v.to_bits()),
+            _ => set_field(s, field, class % 6),
+        }
+        return;
+    }
     match field {
         "squawk" => s.squawk = [None, Some(1000), Some(4521), Some(4521), Some(7600), Some(7700)][class],
         "altitude" => s.altitude = [None, Some(0), Some(12000), Some(12000), Some(12025), Some(40000)][class],
@@ -158,9 +180,10 @@ fn build_table(ostr: &str, n: usize, combo: usize) -> Vec<Snap> {
             r.squawk = [Some(1200), Some(7700), Some(7500), None, Some(7600)][ri % 5];
         }
     }
-    let mut c = combo;
+    let fine = combo >= FINE_BASE;
+    let mut c = combo % FINE_BASE;
     for r in rows.iter_mut() {
-        set_field(r, f, c % 6);
+        set_field(r, f, if fine { 6 + c % 6 } else { c % 6 });
         c /= 6;
     }
     rows
@@ -323,6 +346,15 @@ fn run(ctx: &mut Ctx) {
             for n in 1..=nmax {
                 for combo in 0..6usize.pow(n as u32) {
                     check_table(ctx, ostr, repeated, n, combo);
+                }
+            }
+            // fine-scale neighbours of the real-valued keys (tables of 2 and 3 rows)
+            if !repeated && ostr.chars().filter(|c| KEYS.contains(c)).last().is_some_and(|l| matches!(l, 'N' | 'S' | 'W' | 'E' | 'd' | 'D')) && ostr.chars().count() <= 2 {
+                for n in 2..=3usize {
+                    for combo in 0..6usize.pow(n as u32) {
+                        ctx.count("fine-scale-table");
+                        check_table(ctx, ostr, repeated, n, FINE_BASE + combo);
+                    }
                 }
             }
         }
